@@ -80,11 +80,11 @@ Print Assumptions c15_prop_code_model.
 (* histories in which admission requests and informer deliveries (OnQuotaAdd/Update/Delete) are
    interleaved in any way: the whole-history decision procedure that bin/check evaluates on the
    implementation's observables (Extract.prop_case = SpecInf.eprop_code) holds on the model's own
-   observable, for every history in which no update that is admitted UNCHECKED switches the
-   allow-force-update / is-root label (see c15_unchecked_flag_drop_refuted) *)
+   observable, for EVERY history (unconditional since the early return of ValidUpdateQuota compares
+   the allow-force-update / is-root labels too, see c15_unchecked_flag_drop_refuted) *)
 Theorem c15_informer_prop_code_model : forall g es,
-  forallb flag_stable_ev es = true -> eprop_code g es (etrace (init_topo g) es) = 0.
-Proof. exact eprop_code_trace. Qed.
+  eprop_code g es (etrace (init_topo g) es) = 0.
+Proof. exact eprop_code_trace_all. Qed.
 Print Assumptions c15_informer_prop_code_model.
 
 (* the same as a statement about records: as long as every delivery was a covered one (the
@@ -92,13 +92,12 @@ Print Assumptions c15_informer_prop_code_model.
    well-formed tree, binds exactly the namespaces the admitted objects declare, and shows
    exactly the admitted objects *)
 Theorem c15_informer_histories_wf : forall g es,
-  forallb flag_stable_ev es = true ->
   let j := ejudge (init_judge g) es in
   j_ord j = true ->
   WF (erun g es)
   /\ (j_cons j = true -> NsOK (j_st j) (erun g es))
   /\ (j_full j = true -> StoreOK (j_st j) (erun g es)).
-Proof. exact covered_history_wf. Qed.
+Proof. exact covered_history_wf_all. Qed.
 Print Assumptions c15_informer_histories_wf.
 
 (* the echo: on a record that already shows the write, its handler does not panic and changes
@@ -128,10 +127,10 @@ Print Assumptions c15_admitted_is_applied.
 Theorem c15_peer_write : forall s st pods w,
   sorted_topo s -> ksorted st ->
   WF s -> mem ROOT (hier s) = true -> NsOK st s -> StoreOK st s ->
-  flag_stable_op w = true -> cons_full st w = true -> accepted s (pods, w) = true ->
+  cons_full st w = true -> accepted s (pods, w) = true ->
   exists s', inf_apply s w = (s', false) /\ WF s' /\ mem ROOT (hier s') = true
              /\ NsOK (store_step st true (pods, w)) s' /\ StoreOK (store_step st true (pods, w)) s'.
-Proof. exact peer_written. Qed.
+Proof. exact peer_written_all. Qed.
 Print Assumptions c15_peer_write.
 
 (* clause 22 read back *)
@@ -141,12 +140,19 @@ Theorem c15_infos_okb_sound : forall st s, infos_okb st s = true ->
 Proof. exact infos_okb_sound. Qed.
 Print Assumptions c15_infos_okb_sound.
 
-(* OPEN FINDING: without the restriction the theorem is false of the faithful model — an update
-   that only removes allow-force-update is admitted unchecked, and its echo leaves a record
-   whose children's mins exceed the parent's min (clause 14) *)
-Theorem c15_unchecked_flag_drop_refuted : exists g es,
-  forallb flag_stable_ev es = false /\ eprop_code g es (etrace (init_topo g) es) = 14.
-Proof. exists gg, h_flag. exact (conj (proj1 (proj2 ex_flag_drop)) (proj2 (proj2 (proj2 ex_flag_drop)))). Qed.
+(* REPAIRED FINDING, regression witness against the OLD early return of ValidUpdateQuota (which
+   compared neither allow-force-update nor is-root): it admitted the update that only removes
+   allow-force-update unchecked, and the informer refresh of a well-formed record then left the
+   children's mins above the parent's min (clause 14); the repaired model refuses that update *)
+Theorem c15_unchecked_flag_drop_refuted : exists s o n,
+  wf_code s = 0 /\ update_code_old s [] o n = -1
+  /\ wf_code (fst (on_update s o n)) = 14 /\ update_code s [] o n = 5.
+Proof.
+  exists (erun gg (firstn 4 h_flag)), (forced K6 true), K6.
+  exact (conj (proj1 (proj2 (proj2 ex_flag_drop_old)))
+          (conj (proj1 ex_flag_drop_old)
+            (conj (proj2 (proj2 (proj2 ex_flag_drop_old))) (proj1 ex_flag_drop_repaired)))).
+Qed.
 Print Assumptions c15_unchecked_flag_drop_refuted.
 
 (* ---------------------------------------------------------------- non-vacuity / regressions *)
@@ -209,10 +215,12 @@ Proof. exact ex_gate_guar. Qed.
 (* informer deliveries: a history whose deliveries are all covered (echo, repeated echo, a peer's
    create, a resync) satisfies the hypothesis and the judge; damaged records are named *)
 Example c15_ex_echo_history :
-  forallb flag_stable_ev h_echo = true
-  /\ classes (init_judge gg) h_echo = [CEcho; CEcho; CEcho; CPeer; CPeer]
+  classes (init_judge gg) h_echo = [CEcho; CEcho; CEcho; CPeer; CPeer]
   /\ map fst (etrace (init_topo gg) h_echo) = [1; 1; 1; 1; 1; 1; 1; 0].
-Proof. exact (conj ex_echo_flag_stable (conj ex_echo_classes ex_echo_outcomes)). Qed.
+Proof. exact (conj ex_echo_classes ex_echo_outcomes). Qed.
+(* the judge names the pre-repair behaviour (label removal admitted unchecked, then echoed) *)
+Example c15_ex_flag_drop_judged_14 : eprop_code gg h_flag tr_flag_old = 14.
+Proof. exact ex_flag_drop_judged_14. Qed.
 Example c15_ex_echo_damaged_18 : eprop_code gg (firstn 4 h_echo) tr_damaged = 18.
 Proof. exact ex_echo_damaged_18. Qed.
 Example c15_ex_stale_record_22 : eprop_code gg h_min tr_stale = 22.
